@@ -235,7 +235,7 @@ fn canary_must_fail() {
         if o.status == "failed" and o.kind == "proof":
             o.output = out[-6000:]
             nplay += 1
-            if nplay <= 2:
+            if nplay <= 1:
                 try:
                     o.playback = kani.playback(crate, o.name, "num")
                 except Exception as ex:
